@@ -36,6 +36,7 @@ package proxyutil
 //@   serves C18
 //@   requires res != nil
 //@   modifies nothing
+//@   at call 0 of ParseInt before assert[range-start-is-parsed-as-a-64-bit-decimal] arg1 == 10 && arg2 == 64
 //@   ensures res.StatusCode != 206 ==> result == 0
 
 // ---------------------------------------------------------------------------------------------
@@ -49,7 +50,7 @@ package proxyutil
 //@   ensures result0 == allVals(h, name) && result1 == allOK(h, name)
 //@ pred fromField(h *Header, hm http.Header, k string) = (allOK(h, k) ==> has(hm, k) && hm[k] == allVals(h, k)) && (!allOK(h, k) ==> has(hm, k) == has(h.h, k) && (has(hm, k) ==> hm[k] == h.h[k]))
 //@ func (*Header).Map
-//@   serves C16
+//@   serves C16 C19
 //@   requires h != nil
 //@   modifies nothing
 //@   ensures[framing-headers-come-from-the-message-fields] fromField(h, result, "Host") && fromField(h, result, "Content-Length") && fromField(h, result, "Transfer-Encoding")
